@@ -83,7 +83,7 @@ CHECKS['C03'] = dict(
         'send_maybe that publishes, at most once); THE LOSSLESS EDGE by refinement (C03_edge_lossless, C03_edge_nothing_dropped: for every interleaving of deliveries, poll answers, calls, timeouts and clock '
         'values a synchronized consumer - subscribe-all or an explicit topic list with renaming - fed in order by a well-formed publisher is handed exactly the first k published frames as its subscription sees them - ids, topics, payloads - and all of them once its socket is drained; C03_edge_lossless, C03_edge_lossless_explicit, C03_edge_end_to_end: one generic refinement, two instances); '
         'MQGlue model compared with the real MQ.send/recv/process_frames; the real ZMQReceiver run on schedules machine-checked to satisfy the edge theorem hypotheses; chain/tee/tee-rejoin/join pipelines of REAL '
-        'filters run in deterministic pipeline mode (PUB/SUB pipe capacity taken from the sockets own HWM options) and compared with the functional reference; C03_relay_publishes_what_process_returned (one hop of the chain, publisher side: nothing invented, altered or sent under a later id); C03_chain_two_hops (source -> relay -> sink, four machines and two channels composed, the glue of the relay as a hypothesis: every frame the sink is handed is the visible part of process() applied to ONE source frame, under its id; non-vacuity by a concrete run); C03_join_runahead_unbounded: a repeated request is credit, n repeats publish n frames for every n - the protocol half of known finding C03-join-runahead (independent join, the faster source runs ahead until zmq drops its frames; shown on the real code with real zmq).',
+        'filters run in deterministic pipeline mode (PUB/SUB pipe capacity taken from the sockets own HWM options) and compared with the functional reference; C03_relay_publishes_what_process_returned (one hop of the chain, publisher side: nothing invented, altered or sent under a later id); C03_chain_two_hops (source -> relay -> sink, four machines and two channels composed, the glue of the relay as a hypothesis: every frame the sink is handed is the visible part of process() applied to ONE source frame, under its id; non-vacuity by a concrete run) and C03_chain_n_hops (a chain of ANY length by induction over the relays: what the sink is handed under id k is the visible part of the composition of the process functions applied to the source frame of id k); C03_join_runahead_unbounded: a repeated request is credit, n repeats publish n frames for every n - the protocol half of known finding C03-join-runahead (independent join, the faster source runs ahead until zmq drops its frames; shown on the real code with real zmq).',
    note=PROTO_NOTE + ' The chain theorem is a safety statement (what arrives is right and in order); that every frame does arrive at the end of a chain needs progress of each relay, which is explored in pipeline mode, not proved (partial).',
    technique='Coq proof (refinement of the receiver machine to a three-counter abstract consumer; contract lemmas over the glue and sender machines) + differential correspondence + pipeline-mode exploration against a functional reference', ref='§5, §6 C03')
 CHECKS['C04'] = dict(
